@@ -810,6 +810,54 @@ func runC44(env *mc.Env) {
 		return
 	}
 
+	if env.Sub == "extend-golden" {
+		// Append-only: entries already in the corpus are kept byte for byte; cases of the
+		// current enumerator whose encoding is not in the corpus yet are appended.
+		path := goldenPath(env)
+		golden, err := readGolden(path)
+		if err != nil {
+			env.R.HarnessError("golden corpus unreadable: %v", err)
+			return
+		}
+		key := func(e c44Encoding) string { return e.Kind + "|" + e.Enc + "|" + fmt.Sprint(e.Slabs) }
+		have := map[string]bool{}
+		names := map[string]bool{}
+		for _, g := range golden {
+			have[key(g)] = true
+			names[g.Name] = true
+		}
+		cases := c44Cases(c44GoldenDepth)
+		es := make([]c44Encoding, len(cases))
+		ok := make([]bool, len(cases))
+		mc.ParallelFor(env, len(cases), func(i int) {
+			e, class, _ := judgeCase(cases[i])
+			env.R.Eval()
+			if class == "" {
+				es[i], ok[i] = e, true
+			}
+		})
+		added := 0
+		for i := range es {
+			if ok[i] && !have[key(es[i])] {
+				e := es[i]
+				for names[e.Name] {
+					e.Name += "+"
+				}
+				names[e.Name] = true
+				have[key(e)] = true
+				golden = append(golden, e)
+				added++
+			}
+		}
+		if added > 0 {
+			if err := writeGolden(path, golden); err != nil {
+				env.R.HarnessError("writing golden corpus: %v", err)
+			}
+		}
+		fmt.Printf("appended %d entries; corpus now has %d\n", added, len(golden))
+		return
+	}
+
 	depth := mc.Pick(env, 2, 3)
 	c44SkippedTypes.Store(0)
 	cases := c44Cases(depth)
@@ -834,9 +882,11 @@ func runC44(env *mc.Env) {
 			env.R.Violation("stored|"+c.Kind+":"+c.Class+"|"+class, c44Replay{Part: "roundtrip", Depth: depth, Index: i, Name: c.Name}, detail)
 		}
 	})
-	for i, e := range encs {
+	// informational: is a golden encoding still what the encoder produces for some current case?
+	encKey := func(e c44Encoding) string { return e.Kind + "|" + e.Enc + "|" + fmt.Sprint(e.Slabs) }
+	for _, e := range encs {
 		if e.Name != "" {
-			current[cases[i].Name] = e
+			current[encKey(e)] = e
 		}
 	}
 
@@ -864,12 +914,8 @@ func runC44(env *mc.Env) {
 				fmt.Sprintf("recorded %s\nnow      %s", trunc(g.Print, 400), trunc(print, 400)))
 		default:
 			env.R.Nontrivial("golden|" + g.Name)
-			if cur, ok := current[g.Name]; ok {
-				if sameEncoding(cur, g) {
-					results[i] = 1
-				} else {
-					results[i] = 2
-				}
+			if _, ok := current[encKey(g)]; ok {
+				results[i] = 1
 			} else {
 				results[i] = 3
 			}
@@ -891,7 +937,7 @@ func runC44(env *mc.Env) {
 		env.R.ClassN("golden:decodes-same-value,encoder-output-changed", changedBytes)
 	}
 	if unmatched > 0 {
-		env.R.ClassN("golden:decodes-same-value,no-current-case-of-that-name", unmatched)
+		env.R.ClassN("golden:decodes-same-value,not-an-encoding-of-the-current-enumerator", unmatched)
 	}
 	env.R.BoundCompleted(fmt.Sprintf("depth %d: %d cases; %d golden entries", depth, len(cases), len(golden)))
 }
